@@ -13,7 +13,37 @@ BUDGET = {"quick": 300, "thorough": 900}
 RUNS = {"quick": 4000, "thorough": 600000}
 
 
+def needle_case(rs, tier):
+    """A long run of bad luck: hundreds of thousands of candidates, one or a few of them valid (a 9-level factor with all but
+    one trial pinned, or a long minimum run), so that RandomGen rejects 10^5 or more candidates in a row before it can
+    return.  Whatever the rejection loop does every n-th iteration (progress reports, bookkeeping) gets exercised, and
+    what comes back must still be valid.  About three such cases per quick run and thirty per thorough run; one costs 10-60 s of one worker."""
+    nrng = W.stream(rs, "needle-design")
+    L = nrng.choice([8, 9, 9])
+    names = ["v%d" % i for i in range(L)]
+    A = {"id": "f0", "kind": "basic", "name": "A", "levels": [[n, 1] for n in names]}
+    order = names[:]
+    nrng.shuffle(order)
+    cons = []
+    if nrng.random() < 0.7:
+        free = nrng.choice([1, 2])
+        for i in range(L - free):
+            cons.append({"id": "p%d" % i, "kind": "pin", "index": i, "target": ["f0", order[i]], "spelling": "tuple"})
+    else:
+        B = {"id": "f1", "kind": "basic", "name": "B", "levels": [["b0", 1], ["b1", 1], ["b2", 1]]}
+        A = {"id": "f0", "kind": "basic", "name": "A", "levels": [[n, 1] for n in names[:4]]}
+        ast = {"factors": [A, B], "block": {"kind": "cross", "design": ["f0", "f1"], "crossing": ["f0", "f1"], "rcc": True,
+                                            "constraints": [{"id": "r0", "kind": "atleast", "k": 4, "target": ["f1"], "spelling": "factor"}]}}
+        return {"design": ast, "knobs": dict(common.draw_knobs(W.stream(rs, "knobs")), rng_mode="random"), "n": 1, "strategy": "RandomGen",
+                "faults": [], "needle": True, "timeout": 170}
+    ast = {"factors": [A], "block": {"kind": "cross", "design": ["f0"], "crossing": ["f0"], "constraints": cons, "rcc": True}}
+    return {"design": ast, "knobs": dict(common.draw_knobs(W.stream(rs, "knobs")), rng_mode="random"), "n": 1, "strategy": "RandomGen",
+            "faults": [], "needle": True, "timeout": 170}
+
+
 def gen_case(rs, tier):
+    if W.stream(rs, "needle").random() < (0.0015 if tier == "thorough" else 0.0012):
+        return needle_case(rs, tier)
     rng = W.stream(rs, "design")
     krng = W.stream(rs, "knobs")
     cfg = gen.swarm(krng, tier)
@@ -40,14 +70,16 @@ def run_case(case):
         blk, b, exc = common.construct(w, ast)
         if exc is not None:
             return common.result_base(w, outcome="skip", reason="constructor-refused:" + type(exc).__name__)
-        if m.status == "ok" and blk.trials_per_sample() != m.T:
-            return common.result_base(w, outcome="skip", reason="trial-count-differs(C16)")
+        t_differs = m.status == "ok" and blk.trials_per_sample() != m.T
         strat = case["strategy"]
         if strat != "RandomGen" and blk.complex_factors_or_constraints:
             strat = "RandomGen"     # IterateGen/UniformGen would pick a solver here: that is C01's business
-        w.draw_cap = 30000
+        w.draw_cap = 30000 if not case.get("needle") else 40_000_000
+        w.log_cap = 2000 if case.get("needle") else w.log_cap
+        if case.get("needle"):
+            w.rng.track = False       # a ledger over a million draws is a fraction with millions of digits
         try:
-            with common.time_limit(5):
+            with common.time_limit(5 if not case.get("needle") else 150):
                 res, exc = common.synth(w, blk, strat, case["n"])
         except common.InnerTimeout:
             return common.result_base(w, outcome="skip", reason="enumerator-too-slow")
@@ -59,6 +91,14 @@ def run_case(case):
                                   nontrivial=bool(res) and w.rng.draws > 0,
                                   summary={"design": dast.describe(ast), "T": m.T, "returned": len(res), "draws": w.rng.draws,
                                            "rng_mode": case["knobs"]["rng_mode"], "strategy": strat})
+        if t_differs:
+            if res:
+                base.update(outcome="violation", signature="C04/invalid/trial-count",
+                            detail="%s returned %d sequence(s) of a block that reports %d trials, documented count %d ; design=%s" % (
+                                strat, len(res), blk.trials_per_sample(), m.T, dast.describe(ast)))
+                return base
+            base.update(outcome="skip", reason="trial-count-differs(C16)")
+            return base
         for si, e in enumerate(res):
             hidden = [k for k in e if not isinstance(k, str)]
             if hidden:
